@@ -41,5 +41,11 @@ func TestC19(t *testing.T) {
 	rec.Extra("gas_abort_points_per_message_kind", aborts)
 	pktHistories(rec, mon.Scale(32, 1200), func(i int, c *world.PktCfg) { c.PAdv, c.PFailSend = 0.3, 0.08 },
 		func() []world.Monitor { return []world.Monitor{&props.NoTrace{R: rec}, &props.ErrAck{R: rec}} })
+	// (c) the token workload: the same class / token id arrives on a chain again and again (partial MT amounts, vouchers
+	// going back and forth, malformed receivers, relay chains without a client of the destination)
+	tokHistories(rec, mon.Scale(24, 800), func(i int, c *world.TokCfg) {
+		c.BadRecv, c.MissingClients = 0.3, i%3
+		c.Hostile = i % 2
+	}, func() []world.Monitor { return []world.Monitor{&props.NoTrace{R: rec}, &props.ErrAck{R: rec}} })
 	setExit(rec.Finish())
 }
